@@ -429,7 +429,7 @@ func runC17Deep(r *Run, rng *Rng, replay string) {
 	}
 	for i := 0; i < n; i++ {
 		cfg := genC17Cfg(rng)
-		cfg.w = 1 // width > 1 is the listed open finding of the main runner
+		// every pipeline width (the lane-order defect of width > 1 is repaired: finalizeSingle works in entry order)
 		v, ok := genC17Conv(rng, cfg)
 		bad := i%10 == 4 || !ok // a converter that splits blocks may reject an address by accident
 		cross := i%10 == 7
